@@ -167,3 +167,45 @@ package table
 
 //@ lemma prefTotal: forall a *Path, b *Path :: wfPath(a) && wfPath(b) ==> specPref(a, b) || specPref(b, a)
 //@ lemma prefTransitive: forall a *Path, b *Path, c *Path :: wfPath(a) && wfPath(b) && wfPath(c) && medComparable(a, b) && medComparable(b, c) && medComparable(a, c) && specPref(a, b) && specPref(b, c) ==> specPref(a, c)
+
+// =============================================================================================
+// C11 — UPDATE packing respects the message size limit; an oversize route does not disturb the sender
+// =============================================================================================
+//@ props C11
+
+//@ func maxUpdateMessageLength
+//@   pure
+//@   modifies nothing
+//@   ensures result == 4096 || result == 65535
+//@   ensures result == (bgp.IsExtendedMessageSerialization(options) ? 65535 : 4096)
+
+// maxNLRIs: from C11 "each fit the session's maximum size": n NLRIs of at most 5 (+4 with ADD-PATH) octets
+// plus header (19), the two length fields (2+2) and the attributes fit the limit
+//@ func (*packerV4).pack$2
+//@   requires 0 <= attrsLen && attrsLen <= 1000000
+//@   pure
+//@   modifies nothing
+//@   ensures result >= 1
+//@   ensures result > 1 ==> result*(5+addpathNLRILen) + 23 + attrsLen <= maxUpdateMessageLength(options)
+//@   ensures 5+addpathNLRILen + 23 + attrsLen <= maxUpdateMessageLength(options) ==> result*(5+addpathNLRILen) + 23 + attrsLen <= maxUpdateMessageLength(options)
+
+//@ func (*Path).GetNlri
+//@   pure
+//@   spec-only
+
+// split: from C11 "a route too large to fit any message ... is skipped and reported without disturbing the
+// other routes, the sender or the session": no panic from the batch size, whatever max is (no precondition
+// on max beyond max >= 0, which the caller pack$3 must establish for every attrsLen). nil / type-assertion obligations on the stored paths depend on the packer's data-structure
+// invariant (every queued path is a non-nil IPv4 path) and are not claimed here.
+//@ func (*packerV4).pack$1
+//@   claims make bounds post inv-init inv-keep
+//@   requires max >= 0
+//@   ensures len(result0) <= len(paths) && len(result1) <= len(paths)
+//@   ensures len(result0) == 0 || len(result1) < len(paths)
+//@   loop 0 invariant len(nlris) == i && (i <= max || i == 0) && i <= len(paths)
+
+// loop: batches of at most maxNLRIs(attrsLen) prefixes; terminates; never panics, whatever attrsLen is
+//@ func (*packerV4).pack$3
+//@   claims make bounds pre variant inv-init inv-keep
+//@   requires 0 <= attrsLen && attrsLen <= 1000000
+//@   loop 0 decreases len(paths)
